@@ -11,6 +11,7 @@ R-ROLE    the point returned in position 1 lies on the FIRST primitive of `<A>_t
 import ast
 
 from ..core.astutil import u, call_name, iter_stmts, const, parent_map
+from ..core.peval import peval
 from ..core.index import FuncInfo, AnalysisError
 
 ARITY = {"point": 1, "line": 2, "line_segment": 2, "plane": 2, "triangle": 1, "rectangle": 3, "circle": 3, "disk": 3, "box": 2,
@@ -183,6 +184,7 @@ def r_role(idx, rep, rule="R-ROLE", floor=15):
             pn = parse_name(f.name)
             if pn is None or pn[0] == "point":
                 continue
+            f = peval(idx, f)       # role-switch loops (`for first in (True, False)`, tables of operands) are the passes they stand for
             rf = RoleFlow(idx, f)
             rf.run()
             for r in _returns(f):
@@ -295,6 +297,7 @@ def r_triple(idx, rep, rule="R-TRIPLE", floor=12):
         for f in m.functions.values():
             if "<locals>" in f.qualname or parse_name(f.name) is None:
                 continue
+            f = peval(idx, f)
             rets = [r for r in _returns(f) if isinstance(r.value, ast.Tuple) and len(r.value.elts) >= 2 and all(isinstance(e, ast.Name) for e in r.value.elts[:3])]
             if not rets:
                 continue
